@@ -148,8 +148,7 @@ pub fn check(env: &Env, c: &Case, st: &mut Stats) -> CaseResult {
                         other.insert("mol".into(), 2);
                     }
                 }
-                // a zero amount is refused as a division by zero before dimensions matter
-                let a = if a.0 == 0 { (1, 1) } else { *a };
+                let a = *a;
                 let text = format!("{} of {} {}", ask, amount_text(a, &other), sub);
                 st.class("wrong_dimension_amount");
                 st.nontrivial(&text);
@@ -171,11 +170,7 @@ pub fn check(env: &Env, c: &Case, st: &mut Stats) -> CaseResult {
             // expected: other_side * (a / given_side)
             let (oq, od) = if *forward { (outq.clone(), outd.clone()) } else { (inq.clone(), ind.clone()) };
             if aq.is_zero() {
-                // a zero amount: division by zero inside `get` is a legitimate refusal
-                return match rinkx::eval_line(&env.ctx, &text) {
-                    Out::Panic(pn) => fail(env, st, &panic_signature(&pn), &text, format!("panicked: {}", pn)),
-                    _ => Ok(()),
-                };
+                st.class("zero_amount");
             }
             let want = oq.mul(&aq).div(&gq).unwrap();
             let got = match number_reply(rinkx::eval_line(&env.ctx, &text)) {
@@ -548,7 +543,7 @@ pub fn run(cx: &Cx) -> Report {
     rep.assumptions = vec![
         "property values (input, output, names) are read from the registry and trusted as the database content; the linear law above them is recomputed with own rationals".into(),
         "ratio properties (density) are not scaled in the substance reply for `2 water` (only `density of (2 water)` is): the reply clause is asserted for properties with a dimensionless input".into(),
-        "a zero amount may legitimately be refused (division by zero inside the property lookup)".into(),
+        "a zero amount gives zero of the other side (output*(0/input)); it cannot be fed back, so the inverse direction is skipped for it".into(),
     ];
     let ctx = rinkx::new_ctx();
     let t = Arc::new(tables(&ctx));
@@ -566,6 +561,8 @@ pub fn run(cx: &Cx) -> Report {
             items.push(Case::Prop { sub: sub.clone(), prop: prop.clone(), forward, a: (5, 3 + i as u64 % 11), wrong_dims: false });
             items.push(Case::Prop { sub: sub.clone(), prop: prop.clone(), forward, a: (2, 1), wrong_dims: true });
             items.push(Case::Prop { sub: sub.clone(), prop: prop.clone(), forward, a: (3, 2), wrong_dims: true });
+            items.push(Case::Prop { sub: sub.clone(), prop: prop.clone(), forward, a: (0, 1), wrong_dims: false });
+            items.push(Case::Prop { sub: sub.clone(), prop: prop.clone(), forward, a: (0, 1), wrong_dims: true });
         }
     }
     for (i, sub) in t.subs.iter().enumerate() {
